@@ -487,6 +487,18 @@ func (r *runner) check(q *node.Query, stage string) *checkOutcome {
 		return out
 	}
 	out.Class = r.classify(q, st, diffs, fields)
+	if strings.HasPrefix(out.Class, "C11/result/") {
+		// The label comes from up to a few dozen further live queries; repeat it once before settling on "unexplained"
+		// (the verdict - the result differs from the reference - is already fixed and does not depend on it).
+		r.res.count("classification_repeated", 1)
+		r.c.WaitQuiescent(5 * time.Second)
+		if _, _, d2, s2 := r.run(q, r.m); s2 == "" && len(d2) > 0 {
+			if cl := r.classify(q, r.state(q), d2, fields); !strings.HasPrefix(cl, "C11/result/") {
+				r.res.count("classification_repeated_and_explained", 1)
+				out.Class = cl
+			}
+		}
+	}
 	if os.Getenv("C11_VERBOSE") != "" {
 		fmt.Println("MISMATCH", out.Class, q.SQL())
 		for _, d := range headDiffs(diffs, 8) {
